@@ -196,23 +196,21 @@ fn juxtaposed_parts(q: &str) -> Option<Vec<String>> {
     }
 }
 
-/// "Errors do not abort the remaining results": for a query made of juxtaposed groups, what is
-/// expected is what each group gives when it is asked alone, one after the other - not what the
-/// library's iterator chooses to yield for the whole query.
-fn expected(db: &anything::Db, q: &str, exact: bool) -> Option<(Vec<Item>, Vec<Option<LineInfo>>)> {
-    if let Some(parts) = juxtaposed_parts(q) {
-        let (mut out, mut infos) = (Vec::new(), Vec::new());
-        for p in parts {
-            let (o, i) = expected_whole(db, &p, exact)?;
-            out.extend(o);
-            infos.extend(i);
-        }
-        return Some((out, infos));
+/// "Errors do not abort the remaining results": for a query made of juxtaposed groups, the kinds
+/// of results (value or error) that each group gives when it is asked alone, one after the other -
+/// not what the library's iterator chooses to yield for the whole query. `None` when the query is
+/// not of that form or a group does not parse.
+fn expected_kinds_by_group(db: &anything::Db, q: &str, exact: bool) -> Option<Vec<bool>> {
+    let parts = juxtaposed_parts(q)?;
+    let mut kinds = Vec::new();
+    for p in parts {
+        let (o, _) = expected(db, &p, exact)?;
+        kinds.extend(o.iter().map(|i| matches!(i, Item::Error(_))));
     }
-    expected_whole(db, q, exact)
+    Some(kinds)
 }
 
-fn expected_whole(db: &anything::Db, q: &str, exact: bool) -> Option<(Vec<Item>, Vec<Option<LineInfo>>)> {
+fn expected(db: &anything::Db, q: &str, exact: bool) -> Option<(Vec<Item>, Vec<Option<LineInfo>>)> {
     let parsed = anything::parse(q).ok()?;
     let mut d = Vec::new();
     let mut out = Vec::new();
@@ -504,6 +502,17 @@ impl Prop for C19 {
             Some(w) => w,
             None => return Verdict::DontCare("library parse() failed"),
         };
+        // "evaluation errors ... do not abort the remaining results": the results of a query made
+        // of juxtaposed groups are, kind by kind, those of the groups asked alone. (Only the kinds
+        // are taken from the groups; texts and messages come from the whole query, whose wording
+        // may depend on the context.)
+        if let Some(kinds) = expected_kinds_by_group(env.db(), q, exact) {
+            let got: Vec<bool> = want.iter().map(|i| matches!(i, Item::Error(_))).collect();
+            if kinds.iter().any(|e| *e) && got != kinds {
+                let show = |v: &[bool]| v.iter().map(|e| if *e { "error" } else { "value" }).collect::<Vec<_>>().join(", ");
+                return fw::fail(sig("aborted-results"), format!("{}: asked one by one the groups give [{}]; the whole query gives [{}]", case.key, show(&kinds), show(&got)));
+            }
+        }
         let mut units_judged = 0u64;
         // walk the output
         let lines: Vec<&str> = stdout.lines().collect();
